@@ -455,6 +455,26 @@ def run_inner(case, ctx):
         # (5) input frame
         check_input_unchanged(out, tag, df, before, before_index_name, o,
                               flags, n_failing_constraints)
+        if o['in_place'] and step == 0:
+            # in-place output with the default type repair switched on: no
+            # reference for the verdicts there (repair may convert columns),
+            # but whatever detection reports must be in the caller's frame
+            dfr = set_index(F.build_frame(desc), case.get('index_kind'))
+            okr, vr = quiet(detect_df, dfr, copy.deepcopy(cons),
+                            per_constraint=o['per_constraint'],
+                            in_place=True, epsilon=case['epsilon'],
+                            type_checking=case['type_checking'], repair=True)
+            if okr and vr.detection is not None and (
+                    vr.detection.n_failing_records > 0):
+                out.label('in_place+repair')
+                if 'n_failures' not in dfr.columns and not any(
+                        str(c).startswith('n_failures') for c in dfr.columns):
+                    out.violate('input-frame', 'in-place-with-repair',
+                                '%s: in_place=True with repair on: %d failing '
+                                'records reported, but the frame handed in '
+                                'has columns %r' % (
+                                    tag, vr.detection.n_failing_records,
+                                    list(dfr.columns)))
         # (6) output file
         if outpath:
             exists = os.path.exists(outpath)
